@@ -79,6 +79,11 @@ pub fn reval(g: &PG, st: &RSt, depth: usize, overflow: &mut bool) -> Vec<RSt> {
             let all: Vec<PG> = cs.iter().flat_map(|c| c.iter().cloned()).collect();
             reval(&PG::Anyo(Box::new(PG::Conj(all))), st, depth, overflow)
         }
+        PG::DfsC(cs) => {
+            // the clauses of a dfs body are conjoined in the order written
+            let all: Vec<PG> = cs.iter().flat_map(|c| c.iter().cloned()).collect();
+            conj(&all, st, overflow)
+        }
         PG::Always => reval(&PG::Anyo(Box::new(PG::Succ)), st, depth, overflow),
         PG::Never => {
             *overflow = true;
